@@ -261,6 +261,10 @@ func (c *ExpressionParser) completeLexicalAnalysis() error {
 			}
 		case tokenizers.Word:
 			{
+				// An empty quoted identifier ("") does not name anything
+				if token.Value() == "" {
+					break
+				}
 				tokenType = Variable
 				tokenValue = variants.VariantFromString(token.Value())
 				break
